@@ -147,7 +147,8 @@ Section Gen.
         end
     end.
 
-  Variable types_equal : N -> N -> bool.
+  (** [types_equal] can hit the [expect] panic when an id is missing *)
+  Variable types_equal : N -> N -> result bool.
 
   (** [generate_types_mod] after the sanity pass and the flattening *)
   Fixpoint gen_loop (flat : flat_registry) (l : registry) (acc : items) : result items :=
@@ -166,7 +167,8 @@ Section Gen.
                        match items_get acc (t_path t) with
                        | None => gen_loop flat l' (items_insert acc (t_path t) (id, ir))
                        | Some (other, _) =>
-                           if types_equal id other then gen_loop flat l' acc
+                           let* eq := types_equal id other in
+                           if eq then gen_loop flat l' acc
                            else Err (EDuplicatePath (join "::" (t_path t)))
                        end
                      else Panic "Ident::new: not an identifier"
